@@ -26,10 +26,11 @@ type Request struct {
 	Full      bool               `json:"full,omitempty"` // include complete histories in the response
 
 	// C16
-	RefBudget uint64   `json:"ref_budget,omitempty"`
-	Budgets   []uint64 `json:"budgets,omitempty"`  // explicit budgets (replay / minimisation); empty: enumerate
-	EnumMax   int      `json:"enum_max,omitempty"` // enumerate every budget up to this N, sample above
-	Carries   []uint64 `json:"carries,omitempty"`  // with Budgets: replay the reused-Stats sub-check for these (budget, carry) pairs
+	RefBudget  uint64   `json:"ref_budget,omitempty"`
+	Budgets    []uint64 `json:"budgets,omitempty"`     // explicit budgets (replay / minimisation); empty: enumerate
+	EnumMax    int      `json:"enum_max,omitempty"`    // enumerate every budget up to this N, sample above
+	TwinParser string   `json:"twin_parser,omitempty"` // the same grammar generated without -optimize-parser (a readable clock)
+	Carries    []uint64 `json:"carries,omitempty"`     // with Budgets: replay the reused-Stats sub-check for these (budget, carry) pairs
 
 	// C11
 	FaultSets [][]kernel.Fault `json:"fault_sets,omitempty"` // explicit fault sets; empty: enumerate singles and sample multis
